@@ -572,6 +572,9 @@ pub enum StreamState {
 pub struct SearchStream<'a, S, A> {
     pub(crate) ldap: Ldap,
     pub(crate) rx: Option<mpsc::UnboundedReceiver<(SearchItem, Vec<Control>)>>,
+    // The message ID of the Search in progress. The handle's own record of it (last_id) is
+    // overwritten by any operation issued through ldap_handle().
+    pub(crate) msgid: crate::RequestId,
     state: StreamState,
     #[allow(clippy::type_complexity)]
     adapters: Vec<Arc<Mutex<Box<dyn Adapter<'a, S, A> + 'a>>>>,
@@ -589,6 +592,7 @@ where
         SearchStream {
             ldap,
             rx: None,
+            msgid: 0,
             state: StreamState::Fresh,
             adapters: adapters.into_iter().map(Mutex::new).map(Arc::new).collect(),
             ax: 0,
@@ -661,7 +665,9 @@ where
         if let Some(timeout) = self.timeout {
             self.ldap.with_timeout(timeout);
         }
-        self.ldap.op_call(LdapOp::Search(tx), req).await.map(|_| {
+        let res = self.ldap.op_call(LdapOp::Search(tx), req).await;
+        self.msgid = self.ldap.last_id;
+        res.map(|_| {
             self.state = StreamState::Active;
         })
     }
@@ -670,8 +676,7 @@ where
         let item = if let Some(timeout) = self.timeout {
             let res = time::timeout(timeout, self.rx.as_mut().unwrap().recv()).await;
             if res.is_err() {
-                let last_id = self.ldap.last_id;
-                self.ldap.id_scrub_tx.send(last_id)?;
+                self.ldap.id_scrub_tx.send(self.msgid)?;
             }
             res?
         } else {
@@ -702,11 +707,10 @@ where
         // state that has already been done (timeout) or the ID is gone (closed channel);
         // asking again could hit an operation which has been given the same ID since.
         if self.state == StreamState::Active {
-            let last_id = self.ldap.last_id;
-            if let Err(e) = self.ldap.id_scrub_tx.send(last_id) {
+            if let Err(e) = self.ldap.id_scrub_tx.send(self.msgid) {
                 warn!(
                     "error sending scrub message from SearchStream::finish() for ID {}: {}",
-                    last_id, e
+                    self.msgid, e
                 );
             }
         }
